@@ -1,6 +1,7 @@
 package peering
 
 import (
+	"errors"
 	"fmt"
 	"maps"
 	"net/netip"
@@ -152,6 +153,15 @@ func (p *Peering) AddLink(link Link) error {
 	p.linksLock.Lock()
 	defer p.linksLock.Unlock()
 
+	// Check if the peer or the switch label is already taken by another link.
+	// Link setups run concurrently, so an earlier check may be outdated.
+	if _, ok := p.links[link.Peer()]; ok {
+		return errors.New("already connected to this router")
+	}
+	if _, ok := p.linksByLabel[link.SwitchLabel()]; ok {
+		return errors.New("switch label is already in use")
+	}
+
 	_, err := p.instance.RoutingTable().AddRoute(m.RoutingTableEntry{
 		DstIP:   link.Peer(),
 		NextHop: link.Peer(),
@@ -172,9 +182,15 @@ func (p *Peering) RemoveLink(link Link) {
 	p.linksLock.Lock()
 	defer p.linksLock.Unlock()
 
-	delete(p.links, link.Peer())
-	delete(p.linksByLabel, link.SwitchLabel())
-	p.instance.RoutingTable().RemoveNextHop(link.Peer())
+	// Only remove entries that belong to this link. A link that failed to
+	// register (or was replaced) must not take down the link of the same peer.
+	if p.links[link.Peer()] == link {
+		delete(p.links, link.Peer())
+		p.instance.RoutingTable().RemoveNextHop(link.Peer())
+	}
+	if p.linksByLabel[link.SwitchLabel()] == link {
+		delete(p.linksByLabel, link.SwitchLabel())
+	}
 
 	// If we reach zero links, trigger peering.
 	if len(p.links) == 0 && !p.mgr.IsDone() {
